@@ -77,7 +77,7 @@ impl DiffHook for Capture {
     /*@*/ closed spec fn observes_finish() -> bool { false }                  // the no-op default finish
     /*@*/ closed spec fn replace_is_atomic() -> bool { true }                 // overrides replace: one Replace op
     /*@*/ closed spec fn accepts_replace(&self) -> bool { true }
-    /*@*/ #[verifier::prophetic] open spec fn fobs(&self) -> Obs<Self::Error> { arbitrary() }   // owns everything, borrows nothing
+    /*@*/ #[verifier::prophetic] open spec fn fobs(&self) -> Seq<Obs<Self::Error>> { Seq::empty() }   // owns everything, borrows nothing
     /*@*/ open spec fn config(&self) -> Self { arbitrary() }
 
     #[inline(always)]
